@@ -478,6 +478,7 @@ fn schedules(rep: &mut Report) {
                 for i in 1..=releases.max(1) + 1 {
                     let (f, _, problems) = run_schedule(start_slave, k, qualify, victim, Some(i));
                     total += 1;
+                    crate::engine::PROGRESS.fetch_add(1, std::sync::atomic::Ordering::Relaxed);
                     rep.nontrivial.insert(hash_of(&("sched", start_slave, qualify, vi, i)));
                     let case = json!({"start_slave": start_slave, "parent_qualified": qualify, "victim": format!("{:?}", victim), "parked_after_release": i});
                     if let (Some(p), None) = (problems.first(), &first) {
